@@ -207,6 +207,9 @@ def cases(shard, nshards, seed, tier):
     for i in range(ncli):
         if mine():
             yield {"family": "cli", "i": i}
+    for j, fn in enumerate(("tests/1A1T_1_B.cif", "tests/1ATO.pdb", "tests/1E7K_1_C.cif", "tests/4WTI_1_T-P.cif")):
+        if (tier != "quick" or j < 2) and mine():
+            yield {"family": "converted-mmcif-with-insertion-codes", "file": fn, "i": j}
     # the tool on deposited files as they are: entity tables, nucleotide-like ligands outside the polymer entities,
     # protein chains and water, with the nucleic-acid-only restriction among the options
     other = ["--ignore-occupancy", "--ignore-autoclashes", "--require-same-atom-name", "--enable-molprobity-mode"]
@@ -380,6 +383,10 @@ def _run_cli_text(rec, fn, text, flags, i, suffix, metadata, rows=None):
     try:
         pin, pcsv = os.path.join(d, "in" + suffix), os.path.join(d, "out.csv")
         open(pin, "w").write(text)
+        if i % 2 == 1:
+            # the CSV path already holds the result of an earlier run (another structure, other options)
+            with open(pcsv, "w") as fh:
+                fh.write("Filename,Experimental method,Resolution,Atom 1,Atom 2,Occupancy sum,Classification\nolder,X-RAY DIFFRACTION,1.50,A.G1 P,A.G1 OP1,2.0,\nolder,X-RAY DIFFRACTION,1.50,A.G1 C1',A.G1 N9,2.0,\n")
         old = sys.argv
         sys.argv = ["clashfinder", pin, "--csv", pcsv] + flags
         buf = io.StringIO()
@@ -480,6 +487,24 @@ def _run_cli_text(rec, fn, text, flags, i, suffix, metadata, rows=None):
 def run_case(case, rec):
     seed = os.environ.get("VERIF_SEED", "0")
     fam = case["family"]
+    if fam == "converted-mmcif-with-insertion-codes":
+        # a PDB file with insertion codes converted to mmCIF by the library's own writer (which derives the label numbering
+        # from the PDB numbers: 10 and 10A share a label), read back and searched for clashes under every option set
+        from rnapolis import parser_v2
+
+        rng = random.Random(f"{seed}:C17:conv:{case['i']}")
+        base = gen3d.apply_ops(gen3d.load(case["file"], 1), [{"op": "icodes", "seed": f"c17-{case['i']}", "frac": 0.8}, {"op": "scale", "f": rng.uniform(0.72, 0.85)}, {"op": "round", "decimals": 3}])
+        rows = emit.rows_from_structure(base)
+        if not emit.fits_pdb(rows) or any(len(r["chain"] or "") != 1 for r in rows):
+            return
+        try:
+            s = emit.read_text(parser_v2.write_cif(parser_v2.parse_pdb_atoms(emit.emit_pdb(rows))), ".cif")
+        except Exception as e:
+            rec.undecided("clashes.equal-reference", f"conversion or reading raised {type(e).__name__}")
+            return
+        _cur["ctx"] = {"file": case["file"], "route": "PDB text -> parse_pdb_atoms -> write_cif -> read_3d_structure", "insertion-codes": True}
+        rec.mark_nontrivial(run_all_options(rec, s))
+        return
     if fam == "cli-deposited-file":
         _cur["ctx"] = {"cli": case["i"], "file": case["file"], "flags": case["flags"]}
         rec.mark_nontrivial(run_cli(rec, seed, case["i"], raw=case))
